@@ -767,26 +767,33 @@ impl<'g> Consumer<'g> {
     pub fn new(g: &'g FnGraph<TestFn>, cfg: &RunCfg) -> Self {
         let n = g.graph.node_count();
         let (opts, intr) = make_opts(cfg);
-        let stream: Pin<Box<dyn Stream<Item = Item<'g>> + 'g>> = match (cfg.api.shape, cfg.api.with)
-        {
-            (Shape::Stream, false) => Box::pin(g.stream().map(Item::No)),
-            (Shape::Stream, true) => Box::pin(g.stream_with(opts).map(Item::No)),
-            #[cfg(feature = "intr")]
-            (Shape::StreamIntr, false) => Box::pin(g.stream_interruptible().map(|po| match po {
-                PollOutcome::NoInterrupt(f) => Item::No(f),
-                PollOutcome::Interrupted(f) => Item::Intr(f),
-            })),
-            #[cfg(feature = "intr")]
-            (Shape::StreamIntr, true) => {
-                Box::pin(g.stream_with_interruptible(opts).map(|po| match po {
+        // creating the stream runs library code (channel set-up, preload): a panic
+        // there is a verdict, not a harness failure
+        let created = catch_unwind(AssertUnwindSafe(|| -> Pin<Box<dyn Stream<Item = Item<'g>> + 'g>> {
+            match (cfg.api.shape, cfg.api.with) {
+                (Shape::Stream, false) => Box::pin(g.stream().map(Item::No)),
+                (Shape::Stream, true) => Box::pin(g.stream_with(opts).map(Item::No)),
+                #[cfg(feature = "intr")]
+                (Shape::StreamIntr, false) => Box::pin(g.stream_interruptible().map(|po| match po {
                     PollOutcome::NoInterrupt(f) => Item::No(f),
                     PollOutcome::Interrupted(f) => Item::Intr(f),
-                }))
+                })),
+                #[cfg(feature = "intr")]
+                (Shape::StreamIntr, true) => {
+                    Box::pin(g.stream_with_interruptible(opts).map(|po| match po {
+                        PollOutcome::NoInterrupt(f) => Item::No(f),
+                        PollOutcome::Interrupted(f) => Item::Intr(f),
+                    }))
+                }
+                (s, _) => panic!("{s:?} is not a stream shape in this build"),
             }
-            (s, _) => panic!("{s:?} is not a stream shape in this build"),
+        }));
+        let (stream, ret) = match created {
+            Ok(s) => (Some(s), None),
+            Err(p) => (None, Some(Ret::Panic(format!("creating the stream: {}", panic_msg(p))))),
         };
         Consumer {
-            stream: Some(stream),
+            stream,
             n,
             cw: Arc::new(CountWaker(AtomicUsize::new(0))),
             intr,
@@ -800,7 +807,7 @@ impl<'g> Consumer<'g> {
             signal_sent: false,
             ended: false,
             polls: 0,
-            ret: None,
+            ret,
             acts: Vec::new(),
             viol: Vec::new(),
         }
